@@ -10,6 +10,14 @@ Lanes are stored **exit stage first** so one structural recursion processes a la
 namespace C17
 open Util
 
+/-- `mem.InterleavingConverter` (Akita) — the shipped MI300A platform installs one as `BankAddressConverter` -/
+structure Conv where
+  isz : Nat
+  n : Nat
+  idx : Nat
+  off : Nat
+deriving Repr, DecidableEq
+
 structure Cfg where
   banks : Nat
   ilv : Nat
@@ -20,6 +28,10 @@ structure Cfg where
   miss : Nat
   post : Nat
   top : Nat
+  /-- `BankAddressConverter` (used ONLY to pick the bank and the row), `none` = not installed -/
+  bconv : Option Conv
+  /-- capacity of the backing `mem.Storage` in bytes; `none` = never exceeded (lines of the main runner) -/
+  cap : Option Nat
 deriving Repr, DecidableEq
 
 inductive Kind
@@ -99,6 +111,13 @@ def readByte : List Req → Nat → Nat
 def readRange (log : List Req) (addr len : Nat) : List Nat :=
   (List.range len).map fun i => readByte log (addr + i)
 
+/-- `Storage.Read/Write(addr, len)` returns an error (→ `log.Panic`): the access is done in chunks — the first starts at
+`addr`, the following ones at every 4 KiB unit boundary below `addr+len` — and `createOrGetStorageUnit` refuses a chunk
+whose start lies above the capacity (`address > s.Capacity`, so `addr = Capacity` and the tail of a chunk pass) -/
+def capErr (cap : Option Nat) (addr len : Nat) : Bool := match cap with
+  | none => false
+  | some k => decide (0 < len ∧ k < max addr ((addr + len - 1) / 4096 * 4096))
+
 /-- Go indexes `req.DirtyMask[i]` for every `i < len(req.Data)`: a shorter mask panics -/
 def maskOk (r : Req) : Bool := match r.mask with
   | none => true
@@ -106,10 +125,28 @@ def maskOk (r : Req) : Bool := match r.mask with
 
 /-! ## bank selection and row address (`interleavedBankSelector.Select`, `dispatchPending`) -/
 
-def bankOf (c : Cfg) (addr : Nat) : Nat := (addr / 2 ^ c.ilv) % c.banks
+/-- `InterleavingConverter.ConvertExternalToInternal`; `none` = `log.Panic` ("smaller than offset",
+"does not belong to current element") or an integer division by zero -/
+def Conv.conv? (v : Conv) (a : Nat) : Option Nat :=
+  if a < v.off then none
+  else if v.isz * v.n = 0 then none
+  else if (a - v.off) % (v.isz * v.n) / v.isz ≠ v.idx then none
+  else some ((a - v.off) / (v.isz * v.n) * v.isz + a % v.isz)
+
+/-- the address `dispatchPending` selects bank and row from -/
+def bankAddr (c : Cfg) (addr : Nat) : Nat := match c.bconv with
+  | none => addr
+  | some v => (v.conv? addr).getD addr
+
+/-- does `dispatchPending` panic on one of these requests (address conversion)? -/
+def convFault (c : Cfg) (reqs : List Req) : Bool := match c.bconv with
+  | none => false
+  | some v => reqs.any fun r => (v.conv? r.addr).isNone
+
+def bankOf (c : Cfg) (addr : Nat) : Nat := (bankAddr c addr / 2 ^ c.ilv) % c.banks
 
 def rowOf (c : Cfg) (addr : Nat) : Nat :=
-  ((addr / 2 ^ c.ilv / c.banks) * 2 ^ c.ilv + addr % 2 ^ c.ilv) / 2 ^ c.row
+  ((bankAddr c addr / 2 ^ c.ilv / c.banks) * 2 ^ c.ilv + bankAddr c addr % 2 ^ c.ilv) / 2 ^ c.row
 
 /-! ## Akita pipeline -/
 
@@ -222,6 +259,9 @@ def commit (it : Item) (log : List Req) : Option (Item × List Req) :=
 
 def rspOf (it : Item) : Rsp := ⟨it.req, it.rdata⟩
 
+/-- first visit of `finalizeRead/Write` with a footprint the storage refuses (checked before the mask is indexed) -/
+def capFault (c : Cfg) (it : Item) : Bool := !it.committed && capErr c.cap it.req.addr it.req.size
+
 structure Fin where
   post : List Item
   log : List Req
@@ -233,6 +273,7 @@ structure Fin where
 def finalizePost (c : Cfg) : List Item → List Req → List Rsp → List Rsp → Fin
   | [], log, out, resp => ⟨[], log, out, resp, false⟩
   | it :: rest, log, out, resp =>
+    if capFault c it then ⟨it :: rest, log, out, resp, true⟩ else
     match commit it log with
     | none => ⟨it :: rest, log, out, resp, true⟩
     | some (it', log') =>
@@ -262,10 +303,14 @@ def tickPipes (c : Cfg) (s : State) : State := { s with banks := s.banks.map (ti
 def tickDelays (c : Cfg) (s : State) : State := { s with banks := s.banks.map (tickBankDelay c) }
 def drainTop (s : State) : State := { s with pending := s.pending ++ s.topIn, topIn := [] }
 
-/-- one `Comp.Tick()`; a panic in finalizeBanks aborts the tick where it happened -/
+/-- one `Comp.Tick()`; a panic in finalizeBanks aborts the tick where it happened. A panic of the bank address
+converter in dispatchPending ends the scenario (the real component is left with `pendingReqs` not updated); the model
+stops before dispatchPending and reports `fault:conv`. -/
 def tick (c : Cfg) (s : State) : State :=
   let f := finalize c s
-  if f.2 then f.1 else drainTop (dispatch c (tickDelays c (tickPipes c f.1)))
+  if f.2 then f.1 else
+  let s3 := tickDelays c (tickPipes c f.1)
+  if convFault c s3.pending then s3 else drainTop (dispatch c s3)
 
 /-- `madeProgress` and the panic flag of the same tick -/
 def tickFlags (c : Cfg) (s : State) : Bool × Bool :=
@@ -274,6 +319,7 @@ def tickFlags (c : Cfg) (s : State) : Bool × Bool :=
   let s1 := f.1
   let s2 := tickPipes c s1
   let s3 := tickDelays c s2
+  if convFault c s3.pending then (false, true) else
   let s4 := dispatch c s3
   let p1 := decide (s.resp.length < s1.resp.length)
   let p2 := decide (s2.banks ≠ s1.banks)
@@ -281,6 +327,17 @@ def tickFlags (c : Cfg) (s : State) : Bool × Bool :=
   let p4 := decide (s4.pending.length < s3.pending.length)
   let p5 := !s4.topIn.isEmpty
   (p1 || p2 || p3 || p4 || p5, false)
+
+/-- which panic aborted the tick of `s` (only meaningful when it faults): the first bank, in index order, whose oldest
+post-pipeline item cannot be committed — storage capacity before mask index — else the address converter -/
+def faultKind (c : Cfg) (s : State) : String :=
+  let f := finalize c s
+  if !f.2 then "conv" else
+  match f.1.banks.findSome? (fun b => match b.post with
+      | it :: _ => if capFault c it then some "cap" else if !it.committed && !maskOk it.req then some "bounds" else none
+      | [] => none) with
+  | some k => k
+  | none => "bounds"
 
 inductive Op
   | deliver (kind : Kind) (addr len : Nat) (data : List Nat) (mask : Option (List Bool))
@@ -325,14 +382,15 @@ def quiesce (c : Cfg) : Nat → State → Nat → List Rsp → State × Nat × L
     if !fl.1 && d.isEmpty then (s'', n + 1, acc, false)
     else quiesce c fuel s'' (n + 1) (acc ++ d)
 
-def dump (s : State) : String :=
+def dump (c : Cfg) (s : State) : String :=
+  if s.arrived.any (fun r => let lo := r.addr - min r.addr 4; capErr c.cap lo (r.addr + r.size + 4 - lo)) then "S=err" else
   let bytes := s.arrived.flatMap fun r =>
     let lo := r.addr - min r.addr 4
     readRange s.log lo (r.addr + r.size + 4 - lo)
   s!"S={toHex (fnv bytes)}"
 
 def runOps (c : Cfg) : List String → State → List String → List String
-  | [], s, acc => (dump s :: acc).reverse
+  | [], s, acc => (dump c s :: acc).reverse
   | o :: rest, s, acc =>
     match words o with
     | ["w", a, d, m] =>
@@ -349,7 +407,7 @@ def runOps (c : Cfg) : List String → State → List String → List String
       | _, _ => ["bad"]
     | ["t"] =>
       let fl := tickFlags c s
-      runOps c rest (tick c s) ((if fl.2 then "fault:bounds" else if fl.1 then "t1" else "t0") :: acc)
+      runOps c rest (tick c s) ((if fl.2 then "fault:" ++ faultKind c s else if fl.1 then "t1" else "t0") :: acc)
     | ["o", k] =>
       match k.toNat? with
       | some k => runOps c rest { s with outBuf := s.outBuf.drop k }
@@ -359,6 +417,12 @@ def runOps (c : Cfg) : List String → State → List String → List String
       let r := quiesce c 2000 s 0 []
       runOps c rest r.1 ((s!"q{r.2.1}[" ++ joinWith "," (r.2.2.1.map showRsp) ++ "]" ++ (if r.2.2.2 then "!" else "")) :: acc)
     | _ => ["bad"]
+
+/-- optional `bisz= bn= bidx= boff=`: the bank address converter (absent on the lines of the main runner) -/
+def parseConv (t : List String) : Option Conv :=
+  match kvNat? t "bisz", kvNat? t "bn", kvNat? t "bidx", kvNat? t "boff" with
+  | some a, some b, some i, some o => some ⟨a, b, i, o⟩
+  | _, _, _, _ => none
 
 def parseCfg (t : List String) : Option Cfg := do
   let banks ← kvNat? t "banks"
@@ -370,12 +434,25 @@ def parseCfg (t : List String) : Option Cfg := do
   let miss ← kvNat? t "miss"
   let post ← kvNat? t "post"
   let top ← kvNat? t "top"
-  pure ⟨banks, ilv, w, d, lat, row, miss, post, top⟩
+  pure ⟨banks, ilv, w, d, lat, row, miss, post, top, parseConv t, kvNat? t "cap"⟩
+
+/-- `c17 conv bisz=… bn=… bidx=… boff=… ; a ; a ; …` — the converter alone: internal address (hex) or `panic` -/
+def handleConv (v : Conv) (rest : List String) : String :=
+  joinWith " " (rest.map fun a => match hexNat? a with
+    | none => "bad"
+    | some a => match v.conv? a with
+      | none => "panic"
+      | some x => toHex x)
 
 def handle (line : String) : String :=
   match splitTrim line ";" with
   | [] => "bad"
   | first :: rest =>
+    if (words first).contains "conv" then
+      match parseConv (words first) with
+      | some v => handleConv v rest
+      | none => "bad"
+    else
     match parseCfg (words first) with
     | none => "bad"
     | some c => if c.banks = 0 ∨ c.width = 0 ∨ c.depth = 0 then "bad" else
